@@ -46,6 +46,15 @@ def pfn(d):
     """real, picklable Python function for the wire form {"args": [...], "e": FExpr}"""
     _count[0] += 1
     name = f"g{os.getpid()}_{_count[0]}"
+    if "den" in d:
+        # a QUOTIENT of two expressions (Python floats: a zero denominator raises ZeroDivisionError); outside
+        # the expression language of the Lean model, used by the strata that have no model side
+        argnames = [f"a{i}" for i in range(len(d["args"]))]
+        src = (f"def {name}({', '.join(argnames)}):\n"
+               f"    return ({fexpr.src_expr(d['e'], argnames)}) / ({fexpr.src_expr(d['den'], argnames)})\n")
+        ns = {}
+        exec(compile(src, f"<{name}>", "exec"), ns)  # noqa: S102
+        return reg_fn(ns[name], name)
     return reg_fn(fexpr.compile_fn(d["e"], len(d["args"]), name=name), name)
 
 
@@ -100,6 +109,22 @@ def with_values(content, kvs):
     return out
 
 
+# --------------------------------------------------------------------------- a function for `parallelise` itself
+
+
+def toy_fn(x):
+    """mirrored by the driver (`H_c09.runPar`): negative -> ValueError, otherwise 2*x; an input >= 1000 sleeps far
+    longer than any timeout the harness uses (such a task is cancelled by the pool)"""
+    import time
+
+    if x < 0:
+        msg = "toy_fn"
+        raise ValueError(msg)
+    if x >= 1000:
+        time.sleep(600)
+    return 2 * x
+
+
 # --------------------------------------------------------------------------- toy integrator
 
 
@@ -107,7 +132,7 @@ class Euler:
     """One explicit Euler step per requested interval; row layout of the shipped Scipy integrator
     (`integrate(t_end, steps)` -> `steps + 1` points; `integrate_time_course` prepends t0)."""
 
-    def __init__(self, rhs, y0, jacobian=None, *, nss=4, h=0.25, fail=(), tol=None):
+    def __init__(self, rhs, y0, jacobian=None, *, nss=4, h=0.25, fail=(), tol=None, raises=()):
         from mxlpy.types import IntegrationFailure, NoSteadyState, Result  # noqa: F401
 
         self.rhs = rhs
@@ -120,6 +145,7 @@ class Euler:
         d0 = rhs(0.0, self.y0)
         key = float(sum(self.y0) + 3.0 * sum(float(v) for v in d0))
         self.fail = key in fail
+        self.raises = key in raises  # integrate_to_steady_state raises (an exception escaping the integrator)
 
     def reset(self):
         self.t0 = 0.0
@@ -151,6 +177,9 @@ class Euler:
         from mxlpy.integrators.abstract import TimeCourse
         from mxlpy.types import NoSteadyState, Result
 
+        if self.raises:
+            msg = "toy integrator: the right-hand side raised"
+            raise ValueError(msg)
         if self.fail:
             return Result(NoSteadyState())
         self.reset()
@@ -170,7 +199,8 @@ def make_integ(cfg):
     if cfg is None:
         return None
     return partial(Euler, nss=int(cfg["nss"]), h=fl(cfg["h"]), fail=tuple(fl(k) for k in cfg["fail"]),
-                   tol=None if cfg.get("tol") is None else fl(cfg["tol"]))
+                   tol=None if cfg.get("tol") is None else fl(cfg["tol"]),
+                   raises=tuple(fl(k) for k in cfg.get("raise", [])))
 
 
 # --------------------------------------------------------------------------- tolerant comparison
